@@ -1067,6 +1067,12 @@ def op_transform(ctx, rng, old, which=None):
         if np.unique(pexp, axis=1).shape[1] != np.unique(pold, axis=1).shape[1]:
             ctx.drop("nonlinear-morph-not-injective-on-the-nodes")
             return None
+        if pold.shape[0] == 1:
+            # 1-D: x + a x^2 is no shear; it must be monotone on the range of the mesh or cells overlap afterwards
+            dimg = np.diff(pexp[0, np.argsort(pold[0])])
+            if not (np.all(dimg > 0) or np.all(dimg < 0)):
+                ctx.drop("nonlinear-morph-not-monotone-on-the-1d-mesh")
+                return None
         okp = pn.shape == pexp.shape and bool(np.abs(pn - pexp).max() <= 1e-13 * max(scale, float(np.abs(pexp).max())))
     ctx.check("coordinates-transformed", okp, mech=f"{op}:coordinates:{old.kind}{old.order}", **info)
     ctx.check("shared-vertex-structure", np.array_equal(np.asarray(new_mesh.t), np.asarray(m.t)),
@@ -1138,6 +1144,17 @@ def op_oriented(ctx, rng, old):
         ctx.nontrivial(op, old.cls, tag_kinds(osub, obnd))
         ctx.reached("oriented-flips-some-cells")
     return new if valid else None
+
+
+def _nearly_flat(st, floor=1e-6):
+    """min over cells and reference corners of |det DF| / diam^d below `floor` (float arithmetic, own geometry)."""
+    from .refmodel import geometry as GEO
+    P, T = np.asarray(st.mesh.p, dtype=float), np.asarray(st.mesh.t)[:st.nv]
+    J = GEO.jacobian(st.kind, P, T, GEO.ref_vertices(st.kind))
+    dets = np.abs(GEO.det(J))                                  # (nt, ncorners)
+    ext = P[:, T]
+    diam = (ext.max(axis=1) - ext.min(axis=1)).max(axis=0)
+    return bool((dets.min(axis=1) / np.maximum(diam, 1e-300) ** st.dim).min() < floor)
 
 
 def op_smoothed(ctx, rng, old):
@@ -1221,6 +1238,10 @@ def op_smoothed(ctx, rng, old):
     probs = own_validity(new, need_measure=True)
     if probs or (old.kind in ("tri", "tet", "quad") and not consistently_oriented(new)):
         ctx.drop("smoothing-folded-or-flattened-a-cell")   # Laplacian smoothing does not promise validity
+        return None
+    if old.kind != "line" and _nearly_flat(new):
+        # valid by a hair only: the next rounding (a translation) would decide the sign of a corner determinant
+        ctx.drop("smoothing-left-a-nearly-flat-cell")
         return None
     return new
 
